@@ -16,7 +16,14 @@ Programs == <<
     [t \in {1, 2, 3} |-> <<"W", "D">>],                                \* 6: three writers
     [t \in {1, 2, 3} |-> IF t = 1 THEN <<"W", "D">> ELSE <<"R", "D">>],\* 7
     [t \in {1, 2} |-> <<"R", "D", "R", "D">>],                         \* 8
-    [t \in {1, 2, 3} |-> IF t = 3 THEN <<"W", "D", "W", "D">> ELSE <<"R", "D", "W", "D">>] \* 9
+    [t \in {1, 2, 3} |-> IF t = 3 THEN <<"W", "D", "W", "D">> ELSE <<"R", "D", "W", "D">>], \* 9
+    \* ---- with the per-thread token cache (repaired protocol only) ----
+    [t \in {1, 2} |-> <<"SW", "X">>],                                  \* 10: scoped writers, cache cleared
+    [t \in {1, 2} |-> IF t = 1 THEN <<"SW", "SW", "X">> ELSE <<"SR", "W", "D", "X">>],  \* 11: cache hit vs direct writer
+    [t \in {1, 2} |-> <<"TW", "C", "TR", "C", "X">>],                  \* 12: both slots filled, cleared in one call
+    [t \in {1, 2} |-> IF t = 1 THEN <<"SWe", "SR", "X">> ELSE <<"SW", "X">>],            \* 13: closures returning Err
+    [t \in {1, 2} |-> IF t = 1 THEN <<"TR", "TR", "C", "C", "X">> ELSE <<"W", "D">>],   \* 14: displacement out of the slot
+    [t \in {1, 2, 3} |-> <<"SW", "X">>]                                \* 15: three scoped writers
 >>
 
 MCProg == Programs[P]
